@@ -53,6 +53,15 @@ def gen_target(rng, f):
 def generate(rng, tier):
     n_cases = 70 if tier == "quick" else 800
     cases = []
+    # one exactly-evaluated case per target kind with a rational gradient (so that every Model.HMC target definition the
+    # theorems name is reached by an evaluated case on every run)
+    for tg, dim in [({"kind": "gauss2d", "mean": [fb(0.0), fb(1.0)], "cov": [fb(2.0), fb(0.5), fb(0.5), fb(1.0)]}, 2),
+                    ({"kind": "rosen2d", "a": fb(1.0), "b": fb(5.0)}, 2),
+                    ({"kind": "diag", "lam": [fb(0.25), fb(4.0), fb(1.0)]}, 3),
+                    ({"kind": "quartic"}, 2)]:
+        init = [[fb(r32(rng.uniform(-1, 1))) for _ in range(dim)] for _ in range(2)]
+        cases.append({"f": "f32", "target": tg, "init": init, "eps": fb(r32(0.05)), "L": 1, "k": 2,
+                      "seed": str(rng.getrandbits(64)), "indep_row": 0})
     while len(cases) < n_cases:
         f = rng.choice(["f32", "f32", "f64"])
         tg, dim = gen_target(rng, f)
@@ -199,10 +208,10 @@ def compare(case, out, model):
         if same != 1:
             return "model: leapfrog_impl (the loop as coded) and leapfrog (textbook form) differ on step %d row %d" % (si, r)
         exact[(si, r)] = (dH, 1 + abs(lp0) + abs(lp1) + sum(p * p for p in ps))
-        ix = [Fraction(bf(b)) for b in st["pos_proposed"][r * d:(r + 1) * d]]
-        ip = [Fraction(bf(b)) for b in st["mom_proposed"][r * d:(r + 1) * d]]
         if not all(math.isfinite(bf(b)) for b in st["pos_proposed"][r * d:(r + 1) * d] + st["mom_proposed"][r * d:(r + 1) * d]):
             continue
+        ix = [Fraction(bf(b)) for b in st["pos_proposed"][r * d:(r + 1) * d]]
+        ip = [Fraction(bf(b)) for b in st["mom_proposed"][r * d:(r + 1) * d]]
         scale = 1 + max([abs(v) for v in xs + ps] + [abs(Fraction(bf(b))) for b in st["pos_before"][r * d:(r + 1) * d] + st["momenta"][r * d:(r + 1) * d]])
         for j in range(d):
             if abs(ix[j] - xs[j]) > tol * scale * 4:
